@@ -30,8 +30,8 @@ lines = ["## 6. Detection: which check catches which change",
  "`tools/mutants.py` (2.8) applies each change to a scratch copy of `/repo`, requires the repository's own 30 tests to",
  "still pass (otherwise the change is *unrealistic* and not listed here), and runs the quick check of the tagged",
  "property. Two sources: **own** = `tools/mutant_table.py` (the cut-list of the first plan, the reverted `fix:` commits,",
- "and a few deliberately *equivalent* changes as controls that must NOT be reported); **seeded** = 40 changes written by",
- "independent sub-agents that were given only the text of one property and a scratch worktree (two per property; each",
+ "and a few deliberately *equivalent* changes as controls that must NOT be reported); **seeded** = the changes under `/verif/seeded/` (ten rounds, 371 kept) written by",
+ "independent sub-agents that were given only the text of one property and a scratch worktree (two per property and round; each",
  "confirmed here: patch applies, suite passes, its own demonstration test fails with the change and passes without;",
  "kept under `/verif/seeded/<id>/`).",
  ""]
